@@ -39,21 +39,34 @@ pub fn knobs(rng: &mut Rng, avoid: bool) -> ProgKnobs {
         max_steps: *rng.pick(&[1usize, 2, 3, 5]),
         avoid_reparent_attached: avoid,
         absent_16: *rng.pick(&[0u64, 0, 0, 1, 2]),
+        double_write: false,
     }
 }
 
 /// Shared by C01/C02/C14: generate state, programs and candidate set.
 pub fn gen_tick(rng: &mut Rng, avoid: bool, big: bool, n_small: usize) -> (StateSpec, Vec<Cand>) {
-    let kn = knobs(rng, avoid);
+    let mut kn = knobs(rng, avoid);
+    kn.double_write = rng.chance(1, 8);
+    if kn.double_write {
+        kn.node_pool = kn.node_pool.min(3);
+        kn.max_steps = kn.max_steps.max(3);
+    }
     let mut state = gen_state(rng, kn.node_pool.max(3));
     let mut cands = Vec::new();
     let n_inst = state.insts.len();
     let shard_pool = *rng.pick(&[1u8, 2, 3, 4]);
+    let shard_mode = rng.weighted(&[4, 2, 1]);
     let mut nonce = 1u32;
     for k in 0..n_small {
         let wi = rng.usize_below(n_inst);
         let rule = rng.below(u64::from(N_RULES)) as u8;
-        let shard = rng.below(u64::from(shard_pool)) as u8;
+        // Shard ids cover the whole 0..=255 range: low shards (dense), the top of the range (the
+        // last partial round of any static round-robin ownership) or anywhere.
+        let shard = match shard_mode {
+            0 => rng.below(u64::from(shard_pool)) as u8,
+            1 => 255 - rng.below(u64::from(shard_pool) * 4) as u8,
+            _ => rng.below(256) as u8,
+        };
         let templ = if rng.chance(1, 12) { crate::world::gen::gen_repoint_delete(rng, &state, wi, rule, nonce) } else { None };
         let prog = templ.unwrap_or_else(|| gen_prog(rng, &state, wi, rule, nonce, &kn));
         nonce += 1;
@@ -398,7 +411,10 @@ pub fn check_against_reference(pre: &crate::model::refstate::RefState, reference
         }
         TickResult::EngineErr(e) => match &reference.post {
             Ok(_) => Err(Outcome::violation("commit_err_but_reference_applies", format!("engine: {e}"))),
-            Err(_) => Ok(()),
+            Err(_) => {
+                ctx.hit("reach.tick_refused_as_reference_predicts");
+                Ok(())
+            }
         },
         TickResult::Violation { kind, .. } => Err(Outcome::violation("honest_program_flagged", format!("footprint violation on honest programs: {kind}"))),
         TickResult::Panic(p) => {
